@@ -804,6 +804,10 @@ def install_builtins(I):
     intenum_cls = ClassV("IntEnum", [enum_cls], {}, "enum")
     intenum_cls.is_enum = True
     NM["enum"] = dict(Enum=enum_cls, StrEnum=strenum_cls, IntEnum=intenum_cls, auto=NativeFn(lambda interp: Opaque("auto"), "auto"))
+    NM["xdsl.utils.str_enum"] = dict(StrEnum=strenum_cls)
+    import string as _string
+
+    NM["string"] = dict(ascii_lowercase=_string.ascii_lowercase, ascii_uppercase=_string.ascii_uppercase, ascii_letters=_string.ascii_letters, digits=_string.digits)
 
     def _chain(interp, *xss):
         out = []
